@@ -325,3 +325,42 @@ Qed.
 
 End Fixed.
 End L1ModelProofs.
+
+(* ---- the lists returned by the model; non-vacuity of the KKT premise ---- *)
+Section L1Extra.
+Variable F : realFieldType.
+Notation O := (MCOps F).
+
+(* the lists returned by l1_variant (what lonf puts into the Series) are the entries of trend_vec / gap_vec,
+   so trend + gap = data entry by entry *)
+Theorem l1_variant_identity (qp : forall m, 'M[F]_m -> 'cV[F]_m -> F -> 'cV[F]_m) (order : nat) (lam : F)
+        (ys : list F) (i : nat) :
+  (i < length ys)%N ->
+  List.nth i (fst (l1_variant O qp order lam ys)) 0 + List.nth i (snd (l1_variant O qp order lam ys)) 0
+  = List.nth i ys 0.
+Proof.
+move=> Hi; rewrite /l1_variant /=.
+have Hi' := ssrnat.ltP Hi.
+rewrite !(nth_map_seq _ _ _ _ Hi').
+have := @l1_identity F order (length ys) ys qp lam.
+move/(congr1 (fun A : 'cV[F]_(length ys) => A (Ordinal Hi) 0)).
+rewrite mxE -!(mc_getE _ (Ordinal Hi) 0) /= => ->.
+by rewrite (mc_getE _ (Ordinal Hi) 0) /l1_y mxE.
+Qed.
+
+(* non-vacuity of the KKT premise, and "nothing to smooth": if the order-th differences of the data vanish
+   (constant data for order 1, a straight line for order 2), nu = 0 satisfies the KKT conditions and the
+   data are returned unchanged *)
+Theorem l1_kkt_zero (order n : nat) (ys : list F) (lam : F) :
+  0 < lam -> l1_D O order n *m l1_y O n ys = 0 ->
+  let qp0 := fun m (_ : 'M[F]_m) (_ : 'cV[F]_m) (_ : F) => (0 : 'cV[F]_m) in
+  box_kkt (l1_nu O qp0 order n lam ys) lam
+          (l1_H O order n *m l1_nu O qp0 order n lam ys + l1_f O order n ys)
+  /\ l1_trend_vec O qp0 order n lam ys = l1_y O n ys.
+Proof.
+move=> Hl HD qp0; split; last by rewrite /l1_trend_vec /l1_gap_vec /l1_nu /= mulmx0 subr0.
+rewrite l1_model_gradient /l1_nu /= /l1_r /l1_x mulmx0 subr0 HD oppr0 => i.
+by rewrite !mxE normr0; split; [exact: ltW | split=> // ; split=> _; rewrite ?lexx].
+Qed.
+
+End L1Extra.
